@@ -85,7 +85,7 @@ OpsAt(root, p) ==
                 {x \in {[op |-> "swap", path |-> p, i |-> i, j |-> j] : i \in 2..Len(n.kids), j \in 2..Len(n.kids)} : x.i >= x.j}
            ELSE {})
      \cup (IF "opt" \in OpKinds /\ ~top /\ n.t = TRAK /\ \A i \in 1..Len(n.kids) : n.kids[i].t # EDTS
-           THEN {[op |-> "edts", path |-> p, at |-> i, ver |-> v] : i \in 1..(Len(n.kids) + 1), v \in {0, 1}} ELSE {})
+           THEN {[op |-> "edts", path |-> p, at |-> i, ver |-> v] : i \in 1..(Len(n.kids) + 1), v \in {0, 1, 2}} ELSE {})
      \cup (IF "opt" \in OpKinds /\ ~top /\ n.t = MVEX /\ \A i \in 1..Len(n.kids) : n.kids[i].t # MEHD
            THEN {[op |-> "mehd", path |-> p, at |-> i, ver |-> v] : i \in 1..(Len(n.kids) + 1), v \in {0, 1}} ELSE {})
      \cup (IF "large" \in OpKinds /\ ~top /\ ~n.large /\ ~n.eof THEN {[op |-> "large", path |-> p]} ELSE {})
